@@ -540,7 +540,8 @@ func c12Siblings(r *an.Run, m *runModel) {
 	}
 	pr := fn(r, mainP, "patchRunner.Apply")
 	if pr != nil {
-		r.Check(eng(pr) == eng(api), "change-loop-siblings", api.Pos(), "both change loops call Match, NewChangelog, Replace, Diff, cleanupFilePos in the same order (CLI: %s | API: %s)", eng(pr), eng(api))
+		a, b := eng(changeLoopHost(r, pr)), eng(changeLoopHost(r, api))
+		r.Check(a == b, "change-loop-siblings", api.Pos(), "both change loops call Match, NewChangelog, Replace, Diff, cleanupFilePos in the same order (CLI: %s | API: %s)", a, b)
 	}
 }
 
